@@ -129,6 +129,22 @@ def run(ctx):
             det.update({"issue": "a strictly increasing transformation of a column changed the result", "column": jcol,
                         "before": float(r0[1]), "after": r3[1:] if r3[0] != "ok" else float(r3[1])})
             ctx.violation("oracle", det, site="npc")
+        # ---- the same on an integer matrix whose entries lie beyond 2^53 (ids, nanosecond timestamps): int64 is ranked exactly,
+        #      so an increasing integer map of a column must not change the result either
+        if ctx.rng.random() < 0.3:
+            off = ctx.rng.choice([2**53, 2**53 + 1, 1_700_000_000_000_000_000, 2**62 - 100])
+            gmap = ctx.rng.choice([lambda v: v + off, lambda v: off + 3 * v, lambda v: off - 3 * (10 - v) + (v % 2)])
+            Dint = np.array([[(gmap(int(row[j])) if j == jcol else int(row[j])) for j in range(n)] for row in D], dtype=np.int64)
+            strictly = all((gmap(a_) < gmap(b_)) == (a_ < b_) for a_ in range(0, 10) for b_ in range(0, 10))
+            if strictly:
+                r4 = guarded(npc.npc, np.array([float(t) for t in pv]), Dint, combine=(user if comb == "callable" else comb), plus1=plus1)
+                r5 = guarded(npc.npc, np.array([float(t) for t in pv]), np.array(D, dtype=np.int64), combine=(user if comb == "callable" else comb), plus1=plus1)
+                ctx.count("pair-rank-transform-int64")
+                if r4[0] != "ok" or r5[0] != "ok" or r4[1] != r0[1] or r5[1] != r0[1]:
+                    det.update({"issue": "an int64 matrix (entries beyond 2^53 in one column, increasing integer map) gives another result than the small-integer / float matrix with the same ranks",
+                                "column": jcol, "float_matrix": float(r0[1]), "int64_small": r5[1:] if r5[0] != "ok" else float(r5[1]),
+                                "int64_large": r4[1:] if r4[0] != "ok" else float(r4[1]), "large_column": [int(v) for v in Dint[:, jcol]]})
+                    ctx.violation("oracle", det, site="npc")
         if name != "liptak":
             ge, amb = npc_exact(pv, D, name, plus1)
             if amb == 0 and k0 != ge + c:
@@ -159,6 +175,30 @@ def run(ctx):
             elif vals2[kname][0] != "ok" or vals2[kname][1] > v[1] + 1e-12:
                 ctx.violation("oracle", {"call": kname, "pvalues": p.tolist(), "raised": q.tolist(), "size": size.tolist(),
                                          "issue": "combining function increased when a p-value was raised", "before": v[1], "after": vals2[kname][1:]}, site=kname)
+    # ---- many small p-values: products around the underflow boundary of doubles (1e-308 normal, 5e-324 smallest subnormal).
+    #      No formula comparison here (np.prod legitimately underflows to 0 and Fisher becomes +inf); what must survive is
+    #      antitonicity of the combining functions and monotonicity of npc in every observed p-value.
+    for _ in range(ctx.n(120, 1200)):
+        k = ctx.rng.randint(98, 125); base = ctx.rng.choice([1e-3, 1e-3, 2e-3, 5e-4])
+        p = np.full(k, base); i = ctx.rng.randrange(k)
+        lo_v, hi_v = sorted(ctx.rng.sample([1e-12, 1e-9, 1e-6, 1e-4, 1e-3, 1e-2, 0.5], 2))
+        plo, phi = p.copy(), p.copy(); plo[i] = lo_v; phi[i] = hi_v
+        ctx.case(("underflow", k, base, i, lo_v, hi_v), True); ctx.count("combiner-underflow-boundary")
+        for kname, fnc in (("fisher", npc.fisher), ("liptak", npc.liptak), ("tippett", npc.tippett)):
+            a, b = guarded(fnc, plo), guarded(fnc, phi)
+            if a[0] != "ok" or b[0] != "ok" or not (b[1] <= a[1]):
+                ctx.violation("oracle", {"call": kname, "n_pvalues": k, "all_equal_to": base, "coordinate": i, "lower_value": lo_v, "higher_value": hi_v,
+                                         "issue": "combining function increased when a p-value was raised (product near the underflow boundary)",
+                                         "at_lower": str(a[1:])[:60], "at_higher": str(b[1:])[:60]}, site=kname)
+        if ctx.rng.random() < 0.3:
+            B = ctx.rng.randint(5, 30); plus1 = ctx.rng.random() < 0.5
+            D = np.array([[ctx.rng.random() for _ in range(k)] for _ in range(B)])
+            a, b = guarded(npc.npc, plo, D, "fisher", plus1), guarded(npc.npc, phi, D, "fisher", plus1)
+            ctx.count("npc-underflow-boundary")
+            if a[0] != "ok" or b[0] != "ok" or b[1] < a[1] - 1e-15:
+                ctx.violation("oracle", {"call": "npc", "combine": "fisher", "plus1": plus1, "B": B, "n_pvalues": k, "all_equal_to": base, "coordinate": i,
+                                         "lower_value": lo_v, "higher_value": hi_v, "issue": "raising a partial p-value lowered the global p-value (wide table)",
+                                         "before": str(a[1:])[:60], "after": str(b[1:])[:60], "distr_seed_note": "distr drawn from the check's PRNG; rerun with the same VERIF_SEED"}, site="npc")
     # ---- rejected shapes, non-monotone user combiner
     bads = [([0.5], [[1.0]], "fisher"), ([0.2, 0.3], [[1.0, 2.0, 3.0]], "tippett"), ([0.2, 0.3, 0.4], [[1.0, 2.0]], "liptak"),
             ([], [[]], "fisher")]
